@@ -15,9 +15,11 @@ t = open("/verif/notes/SEED_PROMPT.md").read()
 extra = ("\n\nEnvironment notes: this sandbox has git 2.39, so tests needing git >= 2.41 (`--porcelain` fetch/push: "
          "test_git::test_fetch_*, many jj-cli git push/fetch/clone tests), 2 gpgsm tests and "
          "test_check_out_existing_file_cannot_be_removed (runs as root) fail even on the unmodified tree — ignore exactly those; "
-         "any OTHER test failure caused by your change disqualifies it. The machine is heavily loaded: prefer running the "
-         "relevant test binaries (`cargo nextest run --offline -p jj-lib`, and for CLI-visible changes the jj-cli test files "
-         "that exercise the touched code) over the whole workspace, and say exactly what you ran. The worktree already "
+         "any OTHER test failure caused by your change disqualifies it. The machine is heavily loaded and time matters: run "
+         "`cargo nextest run --offline -p jj-lib --no-fail-fast` (plus `-p jj-core` if you touch core/) in full, but do NOT run the whole "
+         "jj-cli suite (50+ minutes): run only the jj-cli test modules that exercise the code you touched, selected with a "
+         "nextest filter such as `-E 'test(/^test_(rebase|squash)_command::/)'` (all of jj-cli only if your change is inside cli/src "
+         "and you cannot tell which modules cover it), and say exactly what you ran. The worktree already "
          "contains a warm target/ directory from a previous build of the same path; do not delete it.")
 open(f"/tmp/seed/{pid}.prompt", "w").write(t.replace("<DIR>", slot).replace("<PROPERTY>", text).replace("<ID>", pid) + extra)
 print(f"/tmp/seed/{pid}.prompt")
